@@ -8,6 +8,8 @@ package types
 // the frame (modifies) says that no cell of a caller's slice is written.
 
 //@ func (*Slice).Push(elements)
+// the elements are replaced by the container's own methods only (no other code of the package reaches past the lock)
+//@   census [C20.elements.census] (*Slice).elements written only by (*Slice).DoWrite, (*Slice).Pop, (*Slice).Push, (*Slice).Remove, (*Slice).RemoveAll, (*Slice).Replace, (*Slice).Shift, (*Slice).Unshift, (*Slice).clear, (*Slice).splice, NewSlice
 //@   props C20, C01
 //@   opt locks
 //@   requires s != nil
@@ -487,6 +489,9 @@ package types
 // context, so the watcher itself flushes it - closing the done channel, which is what the handler goroutine parked in
 // HandleRequest waits for - and only then emits "close". When a response was written it only emits "close".
 //@ func (*HttpContext).Flush()
+// a response is marked done by Flush only (a second writer cannot un-mark it), the done channel is created once
+//@   census [C11.done.census,C09.done.census] (*HttpContext).isDone written only by (*HttpContext).Flush
+//@   census [C11.donech.census] (*HttpContext).done written only by NewHttpContext
 //@   props C09, C11
 //@   requires c != nil
 //@   modifies c.isDone.v
